@@ -105,7 +105,7 @@ Print Assumptions C03_attr_parse_roundtrip_partial.
 
 (* ---------------------------------------------------------------------------------------------------
    CHARACTER LEVEL (proofs/AttrText*.v).  The written grammar, as data:
-     selem  = name + list of parts + optionally a text `{T}` written last;
+     selem  = name + list of parts + optionally a text `{T}` + optionally the self-closing mark `/`;
      part   = `#v` | `.v` | `[a1 a2 ... an]` (single spaces between);
      sattr  = optional `!` (implied) + name + optional `.` (boolean) + value;
      value  = nothing | `=` | `=v` | `='q'` / `="q"` | `={e}`.
@@ -143,7 +143,7 @@ Theorem C03_element_attributes_text :
   forall (jsx : bool) (env : cenv) (max_repeat : option N) (e : selem),
     selem_ok e -> jsx_ok jsx e -> ce_text env = WNone ->
     parse_abbr jsx env max_repeat (elem_text e) =
-      Ok [ANode (Some (se_name e)) (elem_text_value e) None (attrs_opt (written_mentions e)) [] false].
+      Ok [ANode (Some (se_name e)) (elem_text_value e) None (attrs_opt (written_mentions e)) [] (se_close e)].
 Proof. exact element_attributes_text. Qed.
 Print Assumptions C03_element_attributes_text.
 
@@ -198,11 +198,12 @@ Theorem C03_element_markup_parse :
     markup_parse cfg (elem_text e) =
       Ok [ANode (Some (se_name e)) (elem_text_value e) None
                 (match written_mentions e with [] => None | m => Some (merge_spec (mc_reverse_attrs cfg) [] m) end)
-                [] false].
+                [] (se_close e)].
 Proof. exact markup_parse_elem. Qed.
 Print Assumptions C03_element_markup_parse.
 
-(* ... and expand() writes it as  <name attr...>text</name> : the attributes are those of [merge_spec] on the
+(* ... and expand() writes it as  <name attr...>text</name>  -- or, for an element marked `/` without text,
+   <name attr... />  with ` /`, `/` or nothing before `>` by output.selfClosingStyle ([leaf_tail]) : the attributes are those of [merge_spec] on the
    written mentions (first mention fixes the position, class values joined, last/first value wins), each
    written by the decision table [attr_out_spec] of C03_attr_out_table (quotes / braces, boolean
    expansion or compact form, implied dropped, tabstop for an empty value, names through
@@ -226,7 +227,7 @@ Theorem C03_expand_element_text :
     value_inline c (elem_text_value e) ->
     expand_markup_str x (elem_text e) =
       Ok (c_lt :: tag_name c (se_name e) ++ attrs_text_out c attrs
-          ++ [c_gt] ++ elem_out_text e ++ [c_lt; c_slash] ++ tag_name c (se_name e) ++ [c_gt]).
+          ++ leaf_tail c (tag_name c (se_name e)) (se_close e) (elem_text_value e)).
 Proof. exact expand_element_text. Qed.
 Print Assumptions C03_expand_element_text.
 
@@ -248,7 +249,7 @@ Theorem C03_statement_markup_parse :
                                     (match written_mentions (snd x) with
                                      | [] => None
                                      | m => Some (merge_spec (mc_reverse_attrs cfg) [] m)
-                                     end) [] false))
+                                     end) [] (se_close (snd x))))
             (edenote 0 xs).
 Proof. exact statement_markup_parse. Qed.
 Print Assumptions C03_statement_markup_parse.
@@ -289,7 +290,7 @@ Example C03_expand_nonvacuous :
              [PClass (S "x");
               PSet [mkSAttr false (S "b") false (SUnq (S "f(1)")); mkSAttr false (S "c") true SNone;
                     mkSAttr true (S "d") false SNone; mkSAttr false (S "class") false (SQuo true (S "y z"))];
-              PId (S "i")] (Some (S "5 > 3 \{ok\}")) in
+              PId (S "i")] (Some (S "5 > 3 \{ok\}")) false in
   selem_ok e /\ html_family (mc_syntax (xc_m x)) /\
   Forall (fun a => form_nl_free (attr_out_spec (xc_o x) a)) (merge_spec false [] (written_mentions e)) /\
   value_inline (xc_o x) (elem_text_value e) /\
@@ -308,7 +309,7 @@ Example C03_text_nonvacuous :
               PSet [mkSAttr true (S "p") true SNone; mkSAttr false (S "q") false SEmpty;
                     mkSAttr false (S "r") false (SUnq (S "a*3/4>.#")); mkSAttr false (S "f") false (SUnq (S "g(1)"));
                     mkSAttr false (S "s") true (SQuo true (S "a \' ] (c)")); mkSAttr false (S "t") false (SBrace (S " x{y} "))];
-              PClass (S "z")] None in
+              PClass (S "z")] None false in
   selem_ok e /\ jsx_ok false e /\
   elem_text e = S "a#x.y[!p. q= r=a*3/4>.# f=g(1) s.='a \' ] (c)' t={ x{y} }].z" /\
   written_mentions e =
@@ -326,13 +327,13 @@ Proof.
   split; [split; [discriminate|repeat constructor]|]. split; [|exact I]. repeat constructor; try discriminate.
 Qed.
 
-(* ... and of the statement theorem: a.x>b[c=1]{t>u}+d#e satisfies its hypothesis *)
+(* ... and of the statement theorem: a.x>b[c=1]{t>u}+d#e/ satisfies its hypothesis *)
 Example C03_statement_nonvacuous :
-  let xs := [(mkSElem (S "a") [PClass (S "x")] None, SChild);
-             (mkSElem (S "b") [PSet [mkSAttr false (S "c") false (SUnq (S "1"))]] (Some (S "t>u")), SSibling);
-             (mkSElem (S "d") [PId (S "e")] None, SSibling)] in
+  let xs := [(mkSElem (S "a") [PClass (S "x")] None false, SChild);
+             (mkSElem (S "b") [PSet [mkSAttr false (S "c") false (SUnq (S "1"))]] (Some (S "t>u")) false, SSibling);
+             (mkSElem (S "d") [PId (S "e")] None true, SSibling)] in
   let cfg := mkMConfig (S "html") [(S "a", S "a[href]")] [] WNone None None false None [] false false in
-  Forall (fun x => selem_ok (fst x) /\ jsx_ok false (fst x)) xs /\ stmt_text xs = S "a.x>b[c=1]{t>u}+d#e" /\
+  Forall (fun x => selem_ok (fst x) /\ jsx_ok false (fst x)) xs /\ stmt_text xs = S "a.x>b[c=1]{t>u}+d#e/" /\
   Forall (fun x => plain_name cfg (fst x)) (tl xs).
 Proof.
   cbv zeta. split; [|split; [vm_compute; reflexivity|]].
@@ -373,17 +374,18 @@ Proof.
   - intro H. exfalso. apply H. reflexivity.
 Qed.
 
-(* non-vacuity of (5), (6): a.x>b[c=1]{t>u}+d#e with formatting off (here `a` is not a snippet) *)
+(* non-vacuity of (5), (6): a.x>b[c=1]{t>u}+d#e/ with formatting off (here `a` is not a snippet;
+   selfClosingStyle html writes the marked element as <d id="e">) *)
 Example C03_statement_expand_nonvacuous :
   let x := mkX (mkMConfig (S "html") [] [] WNone None None false None [] false false)
                (mkOconfig (mkOfmt [] [] []) [] [] (S "double") false false [] [] 0 false [] (S "html") [] false [] [] []
                           false None None) in
-  let xs := [(mkSElem (S "a") [PClass (S "x")] None, SChild);
-             (mkSElem (S "b") [PSet [mkSAttr false (S "c") false (SUnq (S "1"))]] (Some (S "t>u")), SSibling);
-             (mkSElem (S "d") [PId (S "e")] None, SSibling)] in
+  let xs := [(mkSElem (S "a") [PClass (S "x")] None false, SChild);
+             (mkSElem (S "b") [PSet [mkSAttr false (S "c") false (SUnq (S "1"))]] (Some (S "t>u")) false, SSibling);
+             (mkSElem (S "d") [PId (S "e")] None true, SSibling)] in
   Forall (fun p => selem_ok (fst p) /\ jsx_ok false (fst p) /\ plain_name (xc_m x) (fst p)) xs /\
   Forall (fun p => elem_out_ok (xc_m x) (xc_o x) (fst p)) xs /\
-  expand_markup_str x (stmt_text xs) = Ok (S "<a class=""x""><b c=""1"">t>u</b><d id=""e""></d></a>").
+  expand_markup_str x (stmt_text xs) = Ok (S "<a class=""x""><b c=""1"">t>u</b><d id=""e""></a>").
 Proof.
   cbv zeta. split; [|split; [|vm_compute; reflexivity]].
   - repeat constructor; try discriminate.
